@@ -208,6 +208,7 @@ DP = Unit(['C11', 'C01'], SFM + 'densityProfile', _dp_params,
                                      'ideal_gas': c.Forall(0, c.Len(r), lambda i: c.Eq(
                                          r[i], v0.self._pressure_profile.profile[i] / (c.constant('KBOLTZ') * v0.self._temperature_profile.profile[i])))},
           inline=['pressureProfile', 'temperatureProfile', 'pressure'], bounds=[dict(n=2)],
+          result=lambda ex, st, v0: st.alloc(ex.c, ex.c.fresh_array('dens', (ex.c.Len(v0.self._pressure_profile.profile),))),
           gen=lambda rng: dict(n=3, P=[rng.uniform(1, 1e5) for _ in range(3)], T=[rng.uniform(100, 3000) for _ in range(3)]),
           native=lambda c, p: ((lambda np, K: np.array(p['self']['_pressure_profile']['profile']) / (K * np.array(p['self']['_temperature_profile']['profile'])))(__import__('numpy'), c.constant('KBOLTZ')), p),
           short='SimpleForwardModel.densityProfile', doc='number density P/(kT), one per layer (native harness re-evaluates the one-line property text)')
